@@ -61,3 +61,227 @@ func VerifC31_huffman() {
 		vrt.Assert(bytes.Equal(buf.Bytes(), want), "C31/huffman-data")
 	}
 }
+
+// ---------- integer layer (RFC 7541 §5.1) ----------
+
+// refVarIntC31 decodes an n-bit-prefix integer: status 0 = ok, 1 = need more bytes, 2 = too long / overflow.
+func refVarIntC31(n byte, p []byte) (val uint64, used int, status int) {
+	if len(p) == 0 {
+		return 0, 0, 1
+	}
+	max := uint64(1)<<n - 1
+	v := uint64(p[0]) & max
+	if v < max {
+		return v, 1, 0
+	}
+	shift := uint(0)
+	for k := 1; k < len(p); k++ {
+		b := p[k]
+		if shift >= 63 {
+			return 0, 0, 2
+		}
+		add := uint64(b&127) << shift
+		if add>>shift != uint64(b&127) || v+add < v {
+			return 0, 0, 2
+		}
+		v += add
+		if b&128 == 0 {
+			return v, k + 1, 0
+		}
+		shift += 7
+	}
+	if shift >= 63 {
+		return 0, 0, 2
+	}
+	return 0, 0, 1
+}
+
+// VerifC31_varint: every prefix size 1..8, every byte string of 0..L bytes.
+func VerifC31_varint() {
+	n := byte(vrt.Range("n", 1, 8))
+	l := vrt.Range("len", 0, vrt.Param("L", 11))
+	p := vrt.Bytes("p", l)
+	i, rest, err := readVarInt(n, p)
+	want, used, st := refVarIntC31(n, p)
+	if err == nil {
+		// success must agree with the reference (an error is always acceptable to the property)
+		vrt.Assert(st == 0, "C31/varint-accepts-only-valid")
+		if st == 0 {
+			vrt.Assert(i == want, "C31/varint-value")
+			vrt.Assert(len(rest) == l-used, "C31/varint-consumed")
+		}
+	} else {
+		vrt.Assert(len(rest) == l, "C31/varint-error-consumes-nothing")
+		if st == 2 {
+			vrt.Assert(err != errNeedMore, "C31/varint-overlong-is-error")
+		}
+	}
+}
+
+// ---------- header block layer ----------
+
+type fieldC31 struct {
+	name, value string
+	sensitive   bool
+}
+
+// refDecodeC31 is an RFC 7541 §6 reference decoder for one complete header block.
+// dyn is the dynamic table (newest first), maxSize/allowed as negotiated.
+func refDecodeC31(p []byte, allowed uint32) (out []fieldC31, ok bool) {
+	var dyn []fieldC31
+	dynSize := uint32(0)
+	maxSize := allowed
+	evict := func() {
+		for dynSize > maxSize && len(dyn) > 0 {
+			last := dyn[len(dyn)-1]
+			dynSize -= uint32(len(last.name) + len(last.value) + 32)
+			dyn = dyn[:len(dyn)-1]
+		}
+	}
+	at := func(i uint64) (fieldC31, bool) {
+		if i == 0 {
+			return fieldC31{}, false
+		}
+		if i <= uint64(len(staticTable)) {
+			e := staticTable[i-1]
+			return fieldC31{name: e.Name, value: e.Value}, true
+		}
+		j := i - uint64(len(staticTable)) - 1
+		if j >= uint64(len(dyn)) {
+			return fieldC31{}, false
+		}
+		return dyn[j], true
+	}
+	readStr := func(p []byte) (s string, rest []byte, good bool) {
+		if len(p) == 0 {
+			return "", nil, false
+		}
+		huff := p[0]&128 != 0
+		n, used, st := refVarIntC31(7, p)
+		if st != 0 {
+			return "", nil, false
+		}
+		p = p[used:]
+		if uint64(len(p)) < n {
+			return "", nil, false
+		}
+		raw := p[:n]
+		if huff {
+			dec, good := refHuffC31(raw)
+			if !good {
+				return "", nil, false
+			}
+			return string(dec), p[n:], true
+		}
+		return string(raw), p[n:], true
+	}
+	for len(p) > 0 {
+		b := p[0]
+		switch {
+		case b&128 != 0:
+			idx, used, st := refVarIntC31(7, p)
+			if st != 0 {
+				return nil, false
+			}
+			f, good := at(idx)
+			if !good {
+				return nil, false
+			}
+			p = p[used:]
+			out = append(out, fieldC31{name: f.name, value: f.value})
+		case b&192 == 64, b&240 == 0, b&240 == 16:
+			n := byte(4)
+			if b&192 == 64 {
+				n = 6
+			}
+			idx, used, st := refVarIntC31(n, p)
+			if st != 0 {
+				return nil, false
+			}
+			p = p[used:]
+			var f fieldC31
+			if idx > 0 {
+				e, good := at(idx)
+				if !good {
+					return nil, false
+				}
+				f.name = e.name
+			} else {
+				var good bool
+				f.name, p, good = readStr(p)
+				if !good {
+					return nil, false
+				}
+			}
+			var good bool
+			f.value, p, good = readStr(p)
+			if !good {
+				return nil, false
+			}
+			if b&192 == 64 {
+				dyn = append([]fieldC31{{name: f.name, value: f.value}}, dyn...)
+				dynSize += uint32(len(f.name) + len(f.value) + 32)
+				evict()
+			}
+			f.sensitive = b&240 == 16
+			out = append(out, f)
+		case b&224 == 32:
+			sz, used, st := refVarIntC31(5, p)
+			if st != 0 || sz > uint64(allowed) {
+				return nil, false
+			}
+			p = p[used:]
+			maxSize = uint32(sz)
+			evict()
+		default:
+			return nil, false
+		}
+	}
+	return out, true
+}
+
+// VerifC31_decoder: Decoder.Write (two writes at every split point) + Close on every block of 0..L bytes.
+func VerifC31_decoder() {
+	l := vrt.Range("len", 0, vrt.Param("L", 3))
+	p := vrt.Bytes("blk", l)
+	split := vrt.Range("split", 0, l)
+	allowed := uint32(vrt.Param("ALLOWED", 64))
+	if vrt.Param("IDXSET", 0) == 1 {
+		// bound: table indices are restricted to boundary classes (0 = invalid, first/last static entry,
+		// first dynamic slot, beyond the tables, prefix-full = multi-byte integer); everything else stays free
+		for _, b := range p {
+			idx7, idx6, idx4 := b&127, b&63, b&15
+			okIdx := b&128 != 0 && (idx7 <= 2 || idx7 >= 60 && idx7 <= 63 || idx7 == 127) ||
+				b&192 == 64 && (idx6 <= 1 || idx6 >= 60) ||
+				b&192 == 0 && b&32 == 0 && (idx4 <= 1 || idx4 == 15) ||
+				b&224 == 32
+			vrt.Assume(okIdx)
+		}
+	}
+	var got []fieldC31
+	d := NewDecoder(allowed, func(f HeaderField) error {
+		got = append(got, fieldC31{f.Name, f.Value, f.Sensitive})
+		return nil
+	})
+	_, err := d.Write(p[:split])
+	if err == nil {
+		_, err = d.Write(p[split:])
+	}
+	if err == nil {
+		err = d.Close()
+	}
+	want, ok := refDecodeC31(p, allowed)
+	if err == nil {
+		vrt.Assert(ok, "C31/decoder-accepts-only-valid")
+		if ok {
+			vrt.Assert(len(got) == len(want), "C31/decoder-field-count")
+			if len(got) == len(want) {
+				for i := range got {
+					vrt.Assert(got[i].name == want[i].name && got[i].value == want[i].value, "C31/decoder-field-equal")
+					vrt.Assert(got[i].sensitive == want[i].sensitive, "C31/decoder-never-index-flag")
+				}
+			}
+		}
+	}
+	vrt.Cover("C31/decoder-end")
+}
